@@ -1,5 +1,5 @@
 (* C09 - property theorems only. *)
-From Coq Require Import Reals String Sorting.Sorted List.
+From Coq Require Import QArith Qcanon Reals String Sorting.Sorted List.
 Require Import PV.Num PV.UpperLimit PV.gen.FactsC09.
 Import ListNotations.
 Local Open Scope string_scope.
@@ -67,6 +67,16 @@ Theorem C09_expected_limits_ordered_approx : forall (f g : R -> R) level delta m
   (Rabs (f a - level) <= delta)%R -> (Rabs (g b - level) <= delta)%R -> (a <= b + 2 * delta / m)%R.
 Proof. exact expected_limits_ordered_approx. Qed.
 
+(* the values computed by vm_compute in the correspondence are those of the real-number model the theorems speak about *)
+Theorem C09_model_executed_is_real : forall (x : Qc) xp fp,
+  option_map q2r (@np_interp QcNum x xp fp) = @np_interp RNum (q2r x) (map q2r xp) (map q2r fp).
+Proof. exact np_interp_q2r. Qed.
+
+Theorem C09_grid_limit_same_cell_ordered : forall a b ca cb da db level,
+  (a <= b)%R -> (ca <= da)%R -> (cb <= db)%R -> (cb <= level < ca)%R -> (db <= level < da)%R ->
+  (chord_cross a ca b cb level <= chord_cross a da b db level)%R.
+Proof. exact expected_limits_ordered_same_cell. Qed.
+
 Print Assumptions C09_level_forwarded_both_modes.
 Print Assumptions C09_grid_limit_is_linear_interp.
 Print Assumptions C09_grid_limit_in_crossing_cell.
@@ -75,3 +85,5 @@ Print Assumptions C09_auto_limit_solves.
 Print Assumptions C09_results_are_hypotests.
 Print Assumptions C09_expected_limits_ordered.
 Print Assumptions C09_expected_limits_ordered_approx.
+Print Assumptions C09_model_executed_is_real.
+Print Assumptions C09_grid_limit_same_cell_ordered.
